@@ -117,9 +117,30 @@ let run_cbor_enc (payload : string) : string =
     | None -> "-" in
   Printf.sprintf "%s %d %s %s | %s" cls used (hex_or_dash (List.concat out)) (chunk_lens out) spec
 
+let derr_name = function M.EEof -> "eof" | M.EUnexpectedEof -> "ueof" | M.EMalformed -> "other"
+
+(* cbor-dec: "<coerce 0|1> <hex>" -> "ok <consumed> <tokens> | <alloc> | <spec>" / "err <class> <ntoks> | .." *)
+let run_cbor_dec (payload : string) : string =
+  let coerce, hex = match split_ws payload with
+    | [c; h] -> (c = "1", h) | [c] -> (c = "1", "") | _ -> failwith "bad cbor-dec payload" in
+  let bs = bytes_of_hex hex in
+  let total = List.length bs in
+  let left = match M.dec_run coerce bs with
+    | M.DOk (toks, rest, alloc) ->
+        Printf.sprintf "ok %d %s | %s" (total - List.length rest) (print_tokens toks) (dec_of_z alloc)
+    | M.DFail (e, toks, alloc) -> Printf.sprintf "err %s %d | %s" (derr_name e) (List.length toks) (dec_of_z alloc)
+    | M.DPanicked _ -> "panic | 0"
+    | M.DOutOfFuel _ -> "hang | 0" in
+  let spec = match M.parse_item coerce bs with
+    | M.POk (n, rest) -> Printf.sprintf "ok %d %s" (total - List.length rest) (print_tokens (M.flatten n))
+    | M.PErr e -> "err " ^ derr_name e
+    | M.PFuel -> "fuel" in
+  left ^ " | " ^ spec
+
 let dispatch (suite : string) (payload : string) : string =
   match suite with
   | "cbor-enc" -> run_cbor_enc payload
+  | "cbor-dec" -> run_cbor_dec payload
   | _ -> "unknown-suite"
 
 let () =
